@@ -190,6 +190,18 @@ CHECKS["C09"] = {
               A("client", "./checks/c09", "TestC09Client", budget={"quick": 60, "thorough": 600}, hard_timeout={"quick": 240, "thorough": 1500})],
 }
 
+CHECKS["C15"] = {
+    "level": "fault_enumeration",
+    "technique": "explicit-state enumeration of operation histories with every teardown cause injected after every prefix (crash-point enumeration) on the real server in virtual time, resource and lifecycle-event accounting after every event",
+    "rule": "Engine A: every history (depth 4 quick / 5 thorough) over {Allocate c1/c2, CreatePermission [A],[A,B], ChannelBind (n1,A),(n1,B), request without allocation} with, after every prefix, each way an allocation "
+            "can end {Refresh 0, lifetime/permission/channel expiry (clock to next deadline -/+1ns), control connection closed by the client (stream listener), relay socket read error, Server.Close} x configurations "
+            "{UDP listener, stream listener, staggered timeouts (100s,40s,70s) on both}; after every event: open relay "
+            "sockets/listeners == those of the model's live allocations, Server.AllocationCount == their number, lifecycle callbacks pair up (no delete without create, none twice, outstanding == live model entries); then a drain "
+            "through all deadlines, 2 h of silence (no callback, no socket activity on behalf of ended allocations), Server.Close (nothing owned by the server stays open, count 0) and goroutine drain of the bubble. "
+            "A class is (event class => response); distinct_nontrivial counts those.",
+    "parts": [A("vtx", "./checks/c15", "TestC15", budget={"quick": 90, "thorough": 1500})],
+}
+
 ENGINES = [
     {"name": "sched", "path": "/verif/sched + /verif/shim + /verif/instr", "serves_properties": ["C18"],
      "kind_free_text": "Engine B: controlled scheduler over sources instrumented at check time (go build -overlay): stateless DFS over all schedules with at most k preemptions, prefix replay, work stealing between shard processes"},
